@@ -50,9 +50,9 @@ type checker struct {
 }
 
 func run(e *harness.Env) {
-	e.Rule = "documents: (A) every sequence of 1..3 body blocks over the full block alphabet of each format (DOCX 38 letters, ODT 35 letters; listed in docx_alphabet / odt_alphabet), all optional parts present " +
+	e.Rule = "documents: (A) every sequence of 1..3 body blocks over the full block alphabet of each format (DOCX 43 letters, ODT 38 letters; listed in docx_alphabet / odt_alphabet), all optional parts present " +
 		"(quick: length-3 sequences with at most one letter outside the structural sub-alphabet); " +
-		"(B, thorough) every sequence of 4 blocks over the structural sub-alphabet (letters whose effect crosses block boundaries: plain / empty paragraph, headings, list items, tables, block-level content control) " +
+		"(B, thorough) every sequence of 4 blocks over the structural sub-alphabet (letters whose effect can cross block boundaries: plain / empty / named-style paragraphs, direct formatting on a styled paragraph, headings, list items, tables, block-level content control) " +
 		"and every sequence of 4 blocks with at most 2 letters other than the plain paragraph over the full alphabet; " +
 		"(C) for every other combination of optional parts (styles / numbering / header / footer absent) and for ExcludeHeadersAndFooters (with and without header / footer parts): every sequence of <= 2 blocks over the full alphabet (thorough: also 3 blocks over the structural sub-alphabet). " +
 		"Each document is read through Text(), ToMarkdown() and Document(); one evaluation = one (document, view, expected block) triple, plus one per (document, view) for the header/footer clause. " +
@@ -168,10 +168,10 @@ func (c *checker) plan(names []string, structural map[string]bool, first bool, f
 	}
 }
 
-var docxStructural = map[string]bool{"p1": true, "empty": true, "h1": true, "hc": true, "ho": true, "l0": true, "l1": true, "l2": true, "n0": true, "n1": true,
+var docxStructural = map[string]bool{"pst": true, "host": true, "plp": true, "lbt": true, "p1": true, "empty": true, "h1": true, "hc": true, "ho": true, "l0": true, "l1": true, "l2": true, "n0": true, "n1": true,
 	"t11": true, "t22": true, "tvm": true, "tnest": true, "bsdt": true}
 
-var odtStructural = map[string]bool{"p1": true, "empty": true, "h1": true, "hc": true, "lb0": true, "lb012": true, "ln01": true, "lb11": true,
+var odtStructural = map[string]bool{"hbody": true, "lsp": true, "pp4": true, "p1": true, "empty": true, "h1": true, "hc": true, "lb0": true, "lb012": true, "ln01": true, "lb11": true,
 	"t11": true, "t22": true, "trs": true, "tlist": true, "sec": true}
 
 func (c *checker) docx() {
